@@ -12,12 +12,15 @@ from props import netcommon
 # ------------------------------------------------------------------ concrete values
 A1 = np.array([[0, 0, 0, 1, 1, 1], [0, 0, 1, 1, 1, 0], [0, 1, 0, 0, 1, 0],
                [1, 1, 0, 0, 0, 0], [1, 1, 1, 0, 0, 0], [1, 0, 0, 0, 0, 0]])
-A2 = np.array([[0, 1, 0, 0, 0, 1], [1, 0, 1, 0, 0, 0], [0, 1, 0, 1, 0, 0],
-               [0, 0, 1, 0, 1, 1], [0, 0, 0, 1, 0, 1], [1, 0, 0, 1, 1, 0]])
+# token 2 is a DISCONNECTED graph: a triangle with a pendant node {0,1,2,3}, an isolated node 4 ... and
+# node 5 attached to 3 would connect it, so: component {0,1,2}, component {3,5}, isolated node 4
+A2 = np.array([[0, 1, 1, 0, 0, 0], [1, 0, 1, 0, 0, 0], [1, 1, 0, 0, 0, 0],
+               [0, 0, 0, 0, 0, 1], [0, 0, 0, 0, 0, 0], [0, 0, 0, 1, 0, 0]])
 D1 = np.array([[0, 1, 0, 1, 0, 0], [0, 0, 1, 0, 1, 0], [0, 0, 0, 1, 0, 0],
                [0, 1, 0, 0, 0, 0], [1, 0, 0, 1, 0, 1], [0, 0, 0, 1, 1, 0]])
-D2 = np.array([[0, 0, 1, 0, 0, 1], [1, 0, 0, 0, 1, 0], [0, 1, 0, 0, 0, 0],
-               [0, 0, 1, 0, 1, 0], [0, 0, 0, 1, 0, 0], [1, 0, 0, 0, 1, 0]])
+# directed token 2: a 3-cycle with a reciprocated link {0,1,2}, a one-way link 3->5, isolated node 4
+D2 = np.array([[0, 1, 0, 0, 0, 0], [1, 0, 1, 0, 0, 0], [1, 0, 0, 0, 0, 0],
+               [0, 0, 0, 0, 0, 1], [0, 0, 0, 0, 0, 0], [0, 0, 0, 0, 0, 0]])
 ADJ = {False: {1: A1, 2: A2}, True: {1: D1, 2: D2}}
 WEIGHTS = {0: None, 1: np.array([1.5, 1.7, 1.9, 2.1, 2.3, 2.5]), 2: np.array([2.0, 1.0, 0.5, 3.0, 1.0, 1.5])}
 
@@ -109,7 +112,10 @@ class NetworkFamily:
             raise ValueError(m)
 
     def names(self, obj):
-        return [n for n in netcommon.discover(obj) if not (self.directed and "eigenvector" in n)]
+        # eigenvector centralities come from an iterative solver with a random start: they are a function
+        # of the network only where the Perron vector is unique (undirected and connected)
+        unique = (not self.directed) and len(obj.graph.connected_components(mode="weak")) == 1
+        return [n for n in netcommon.discover(obj) if unique or "eigenvector" not in n]
 
     def calls(self, obj, a):
         c = [("N", lambda: obj.N), ("n_links", lambda: obj.n_links),
